@@ -17,3 +17,9 @@ func VerifPByte32(s []byte) *[32]byte { return byte32(s) }
 func (d *DosNode) VerifPHandleCR(cr *onchain.LogStartCommitReveal, randSeed *big.Int) {
 	d.handleCR(cr, randSeed)
 }
+
+// VerifPGroupInfo is groupInfo reduced to what the callers branch on: the number of member ids and the error.
+func (d *DosNode) VerifPGroupInfo(groupID string) (int, error) {
+	ids, _, _, err := d.groupInfo(groupID)
+	return len(ids), err
+}
